@@ -15,9 +15,9 @@ import (
 
 func init() {
 	register(&Def{ID: "C19", Engine: "E2", Run: runC19,
-		Rule: "explicit-state BFS over operation HISTORIES: state = a population of <= 3 live tensors (and views of them), the caller-owned argument slices and the library's global pools; alphabet ~ 40 event templates instantiated over the live tensors (construction, slicing, T/UT/Transpose with caller axes, Reshape, Clone/Materialize, arithmetic in safe/unsafe/reuse modes, Sum/Argmax with caller axes, MatMul/TensorMul/Dot with caller axes, Concat/Stack/Repeat with caller counts, iterator create+drain, ReturnTensor, UsePool/DontUsePool, GC+finalizers; one-element and scalar tensors as operands of MaxBetween), and a second universe searched one level deeper: masked / plain / column-major-converted constructors, row views, ReturnTensor of views and roots, masking predicates, Clone, Materialize, Concat; " +
+		Rule: "explicit-state BFS over operation HISTORIES: state = a population of <= 3 live tensors (and views of them), the caller-owned argument slices and the library's global pools; alphabet ~ 40 event templates instantiated over the live tensors (construction, slicing, T/UT/Transpose with caller axes, Reshape, Clone/Materialize, arithmetic in safe/unsafe/reuse modes, Sum/Argmax with caller axes, MatMul/TensorMul/Dot with caller axes, Concat/Stack/Repeat with caller counts, iterator create+drain, ReturnTensor, UsePool/DontUsePool, GC+finalizers; one-element and scalar tensors as operands of MaxBetween; calls that are refused after their options were parsed), and a second universe searched one level deeper: masked / plain / column-major-converted constructors, row views, ReturnTensor of views and roots, masking predicates, Clone, Materialize, Concat, Dot, ShallowClone + ReturnTensor; " +
 			"successor = replay of the history on fresh objects + one event; dedup on (fingerprints of all live tensors, view relation, free-list sizes, pool flag); two pool environments (always recycle the most recently returned slice / never recycle). " +
-			"invariants after EVERY event: (1) every live tensor other than the designated destination has an unchanged fingerprint (shape, strides, order, pending transpose, mask, storage); (2) caller-owned slices are byte-identical over their full capacity; (3) overwriting a caller slice afterwards changes no live tensor (not retained); (4) no metadata slice of a live tensor and no caller slice is in a free list, no slice is in a free list twice - every such alarm is confirmed concretely by borrowing the slice and observing the victim change. one case = one history state with all its outgoing events; non-trivial = history length >= 1",
+			"invariants after EVERY event: (1) every live tensor other than the designated destination has an unchanged fingerprint (shape, strides, order, pending transpose, mask, storage); (2) caller-owned slices are byte-identical over their full capacity; (3) overwriting a caller slice afterwards changes no live tensor (not retained); (4) no metadata slice of a live tensor and no caller slice is in a free list, no slice is in a free list twice, no object is twice in ANY registered pool (tensor headers, option records, scalar headers) - every such alarm is confirmed concretely by borrowing the slice and observing the victim change. one case = one history state with all its outgoing events; non-trivial = history length >= 1",
 		Assume: []string{"whether the VALUES delivered by an operation are right is the subject of C06-C12; C19 judges only what happens to the OTHER live tensors, the caller's slices and the pools", "the sync.Pool shim is a legal refinement of sync.Pool"}})
 }
 
